@@ -158,6 +158,14 @@ class Interp(StmtMixin, ExprMixin, CallMixin, BuiltinMixin, OMapMixin, EngineBas
             res.undecided.append(f"unsupported: {u}")
         except LocalGone as e:
             res.undecided.append(f"contract names local '{e}' which does not exist")
+        except (TypeError, AttributeError, KeyError, IndexError, z3.Z3Exception) as e:
+            # the translator met a construct / type combination it has no rule for: this function is UNDECIDED (exit 2), it is
+            # neither a verdict about the code nor a reason to stop checking the other functions
+            import traceback
+
+            where = traceback.extract_tb(e.__traceback__)[-1]
+            res.undecided.append(f"unsupported: translator has no rule here ({type(e).__name__}: {str(e)[:120]} at {where.filename.split('/')[-1]}:{where.lineno}; "
+                                 f"source line {getattr(self.cur_node, 'lineno', '?')})")
         res.obligations = list(self.obls.values())
         res.gen_time = time.time() - t0
         return res
